@@ -25,6 +25,9 @@ func runCase(t *testing.T, run *core.Run, name string, idx int, rng *rand.Rand) 
 	opts := node.WorldOpts{
 		Nodes: 2, GenesisVals: 4 + rng.Intn(5), ExtraVals: 4, Users: 6, Gov: idx%3 != 0, Delegates: rng.Intn(2),
 		Stake: func(i int, r *rand.Rand) uint64 {
+			if idx%4 == 3 {
+				return uint64(100_000 + r.Intn(15_000)) // just above the minimum stake of these chains: one capped slash drops below it
+			}
 			switch r.Intn(4) {
 			case 0:
 				return uint64(1 + r.Intn(5)) // slashes round such stakes to zero
@@ -41,6 +44,12 @@ func runCase(t *testing.T, run *core.Run, name string, idx int, rng *rand.Rand) 
 			p.Validator.NonSignWindow, p.Validator.MaxNonSign = uint64(2+r.Intn(3)), uint64(r.Intn(2))
 			p.Validator.NonSignSlashPercentage, p.Validator.DoubleSignSlashPercentage = slashPct, slashPct
 			p.Validator.MaxSlashPerCommittee = []uint64{15, 100}[r.Intn(2)]
+			if idx%4 == 3 { // (odd index: protocol version 2, committee-scoped slashing)
+				// a slash that reaches the per-committee cap (ejection from the committee) AND leaves a stake below the minimum
+				// (forced unstaking) in one step
+				p.Validator.MinimumStakeForValidators, p.Validator.MaxSlashPerCommittee = 95_000, 15
+				p.Validator.NonSignSlashPercentage, p.Validator.DoubleSignSlashPercentage = 50, 50
+			}
 		},
 		Weights: map[string]int{"send": 8, "send-edge": 2, "stake": 12, "edit-stake": 12, "unstake": 9, "pause": 9, "unpause": 6, "subsidy": 2, "invalid": 2, "change-param": 8, "dao-transfer": 1},
 	}
